@@ -231,11 +231,6 @@ func (p *Path) callSSA(caller *frame, fn *ssa.Function, args []Value, env []Valu
 			return nil // imported package initialisers run lazily
 		}
 	}
-	if fn.Blocks == nil {
-		// interpreted packages are built eagerly at load time (building
-		// lazily would race with other workers reading the blocks)
-		panic(unsupported{"no body for function: " + name})
-	}
 	pkgPath := ""
 	if pk := fn.Package(); pk != nil {
 		pkgPath = pk.Pkg.Path()
@@ -259,6 +254,11 @@ func (p *Path) callSSA(caller *frame, fn *ssa.Function, args []Value, env []Valu
 			return p.zero(res)
 		}
 		panic(unsupported{"callee outside interpreted packages (no model): " + name})
+	}
+	if fn.Blocks == nil {
+		// interpreted packages are built eagerly at load time (building
+		// lazily would race with other workers reading the blocks)
+		panic(unsupported{"no body for function: " + name})
 	}
 	if pkgPath != "" && fn.Synthetic != "package initializer" {
 		if pk := p.eng.prog.ImportedPackage(pkgPath); pk != nil {
@@ -324,6 +324,7 @@ func (p *Path) runFrame(fr *frame) {
 		nonPhis := fr.executePhis()
 		for _, instr := range nonPhis {
 			p.steps++
+			p.curFr = fr
 			if p.steps > p.eng.maxSteps {
 				panic(unwindFailure{"step budget exceeded in " + fr.fn.String()})
 			}
@@ -755,7 +756,7 @@ func (p *Path) indexAddr(instr *ssa.IndexAddr, x, idx Value) Value {
 		t = p.ctx.Sext(t, 64)
 		inRange := p.ctx.Ult(t, p.ctx.BV(uint64(len(s)), 64))
 		if !p.branch(inRange) {
-			p.goPanicRuntime(fmt.Sprintf("index out of range [symbolic] with length %d", len(s)))
+			p.goPanicRuntime(fmt.Sprintf("index out of range [symbolic %s] with length %d", t.String(), len(s)))
 		}
 		// scalar elements: symbolic element pointer (ite-chain), no fork
 		allScalar := len(s) > 0
@@ -1041,10 +1042,10 @@ func (p *Path) chooseFree(kind string, n int) int {
 	for i := 1; i < n; i++ {
 		np := make([]Decision, len(p.decs), len(p.decs)+1)
 		copy(np, p.decs)
-		np = append(np, Decision{kind, n, i})
+		np = append(np, Decision{kind, n, i, 0})
 		p.res.NewPrefixes = append(p.res.NewPrefixes, np)
 	}
-	p.decs = append(p.decs, Decision{kind, n, 0})
+	p.decs = append(p.decs, Decision{kind, n, 0, 0})
 	return 0
 }
 
